@@ -110,6 +110,20 @@ def optRaw (f : Option Text) : Option Text :=
   | none => none
   | some r => if r == tNull then none else some r
 
+/-! The member-name lists of the derived serde structs.  `abbrev`s: they are tied to the source by
+Theorems/WireFieldsTie.lean (= the tables the translator regenerates in Gen/WireFields.lean). -/
+abbrev requestKnown : List Text := [kJsonrpc, kId, kMethod, kParams]
+abbrev notifKnown : List Text := [kJsonrpc, kMethod, kParams]
+abbrev invalidRequestKnown : List Text := [kId]
+abbrev errObjKnown : List Text := [kCode, kMessage, kData]
+/-- `deny_unknown_fields`: only on `ErrorObject` -/
+abbrev requestDeny : Bool := false
+abbrev notifDeny : Bool := false
+abbrev invalidRequestDeny : Bool := false
+abbrev errObjDeny : Bool := true
+/-- the names the hand-written `Response` field visitor recognises -/
+abbrev responseKnown : List Text := [kJsonrpc, kResult, kError, kId]
+
 structure Request where
   id : Id
   method : Text
@@ -118,7 +132,7 @@ structure Request where
 
 /-- `serde_json::from_str::<Request>` (types/src/request.rs:41-59) -/
 def decodeRequest (raw : Text) : Option Request :=
-  match structFields [kJsonrpc, kId, kMethod, kParams] false raw with
+  match structFields requestKnown requestDeny raw with
   | some [some j, some i, some m, p] =>
     if !isTwoPointZero j then none else
     match decodeId i, decodeString m with
@@ -133,7 +147,7 @@ structure Notif where
 
 /-- `Notification<'a, Option<&RawValue>>` (types/src/request.rs:121-133) -/
 def decodeNotif (raw : Text) : Option Notif :=
-  match structFields [kJsonrpc, kMethod, kParams] false raw with
+  match structFields notifKnown notifDeny raw with
   | some [some j, some m, p] =>
     if !isTwoPointZero j then none else
     match decodeString m with
@@ -143,7 +157,7 @@ def decodeNotif (raw : Text) : Option Notif :=
 
 /-- `InvalidRequest` (types/src/request.rs:112-117): only the id -/
 def decodeInvalidRequest (raw : Text) : Option Id :=
-  match structFields [kId] false raw with
+  match structFields invalidRequestKnown invalidRequestDeny raw with
   | some [some i] => decodeId i
   | _ => none
 
@@ -155,7 +169,7 @@ structure ErrObj where
 
 /-- `ErrorObject` (types/src/error.rs:41-51), `deny_unknown_fields` -/
 def decodeErrObj (raw : Text) : Option ErrObj :=
-  match structFields [kCode, kMessage, kData] true raw with
+  match structFields errObjKnown errObjDeny raw with
   | some [some c, some m, d] =>
     match decodeI32 c, decodeString m with
     | some code, some msg => some { code := code, message := msg, data := optRaw d }
